@@ -2,7 +2,7 @@
    Result code per case: 0 = agrees with the model (both variants where a variant exists), 1 = agrees only with
    today's variant (_current), 2 = agrees only with the repaired variant, 3 = disagrees with the model. *)
 From Coq Require Import List Arith NArith ZArith Bool.
-From OG Require Import C05.Model.
+From OG Require Import C05.Model C05.Trunc.
 Import ListNotations.
 
 Fixpoint list_eqb {A} (eqb : A -> A -> bool) (a b : list A) : bool :=
@@ -52,7 +52,9 @@ Inductive case :=
 | CCoord (script : list wres) (acked : bool) (calls : nat)
 | CGroup (forced lost : bool)
 | CHist (obs : list oev) (w : list wstep)
-| CConflict (old : list batch) (j : nat) (new : list batch) (applied : list batch).
+| CConflict (old : list batch) (j : nat) (new : list batch) (applied : list batch)
+| CTrunc (fsz first last : N) (T : Z) (rs : list (Z * bool * list bool * list N * N * option N * bool))
+| CGroupT (stale lost : bool).
 
 Definition dw_eqb (a : option dwrap) (b : option (N * list N * N * list N)) : bool :=
   match a, b with
@@ -195,6 +197,35 @@ Definition group_lost (today forced : bool) : bool :=
   | None => false      (* the forced truncation is not enabled: nothing is lost *)
   end.
 
+(* a sequence of truncation-decision rounds: (clock units that pass before the round, leader?, alive flags, Match
+   values, snapshot index, observed proposal, observed "tolerance period running") *)
+Definition optN_eqb (a b : option N) : bool :=
+  match a, b with None, None => true | Some x, Some y => N.eqb x y | _, _ => false end.
+Definition proposal (d : decision) : option N := match d with DNone => None | DHealthy i | DForce i => Some i end.
+
+Fixpoint trunc_agrees (tc : tcfg) (T : Z) (L : layout) (st : option Z) (now : Z)
+                      (rs : list (Z * bool * list bool * list N * N * option N * bool)) : bool :=
+  match rs with
+  | [] => true
+  | (adv, lead, alive, mt, snp, prop, armed) :: q =>
+      let now' := (now + adv)%Z in
+      let r := decide tc T L st (mkRound now' lead alive mt snp) in
+      optN_eqb (proposal (snd r)) prop && Bool.eqb (match fst r with Some _ => true | None => false end) armed
+      && trunc_agrees tc T L (fst r) now' q
+  end.
+
+(* the two-outage scenarios of the real 3-node group as seen by the node that led during the first outage (tolerate
+   time 60 minutes): second = outage, recovery seen as the leader, two hours, second outage with three rounds;
+   stale = the leadership is lost during the first outage and regained during the second one *)
+Definition two_outage_rounds (stale : bool) : list round :=
+  let dn := [true; true; false] in let al := [true; true; true] in let m := [9%N; 9%N; 9%N] in
+  [ mkRound 0 true dn m 5 ] ++
+  (if stale then [ mkRound 0 false dn m 5; mkRound 1 false al m 5 ] else [ mkRound 1 true al m 5 ]) ++
+  [ mkRound 121 true dn m 9; mkRound 122 true dn m 9; mkRound 123 true dn m 9 ].
+Definition two_outage_forced (tc : tcfg) (stale : bool) : bool :=
+  existsb (fun d => match d with DForce _ => true | _ => false end)
+          (decisions tc 60 (mkLay 30000 1 20) None (two_outage_rounds stale)).
+
 Definition variant (cur rep : bool) : nat :=
   match cur, rep with true, true => 0 | true, false => 1 | false, true => 2 | false, false => 3 end.
 
@@ -228,6 +259,12 @@ Definition classify (c : case) : nat :=
       if list_eqb batch_eqb (conflict_applied old j new) applied then 0 else 3
   | CAckErr acked =>
       variant (Bool.eqb (commit_result_current true false) acked) (Bool.eqb (commit_result_repaired true false) acked)
+  | CTrunc fsz first last T rs =>
+      let L := mkLay fsz first last in
+      variant (trunc_agrees tcfg_current T L None 0 rs) (trunc_agrees tcfg_repaired T L None 0 rs)
+  | CGroupT stale lost =>
+      variant (Bool.eqb (group_lost true (two_outage_forced tcfg_current stale)) lost)
+              (Bool.eqb (group_lost true (two_outage_forced tcfg_repaired stale)) lost)
   end.
 
 Definition classify_all (cs : list case) : list nat := map classify cs.
